@@ -1,5 +1,7 @@
 import DnpProofs.Lemmas.Transpose
 import DnpProofs.Lemmas.Procpar
+import DnpModel.Io.Axes
+import Mathlib.Tactic.Ring
 set_option linter.unusedSectionVars false
 /-!
 # C06 — vendor files import sample-exactly, in the right place
@@ -228,6 +230,63 @@ theorem example_named_array :
       | .error _ => none) = some ("d2", .values [.txt "0.5", .txt "0.1", .txt "2.0"]) := by decide +kernel
 
 end procpar
+
+
+/-! ### the index axes of a binary file: one coordinate per stored point -/
+section axes
+open Dnp.ImportAxis
+
+/-- one coordinate per stored point, for every extent, start and step (zero and negative steps included) -/
+theorem indexAxis_length (n : Nat) (start step : Int) : (indexAxis n start step).length = n := by
+  simp [indexAxis]
+
+theorem indexAxis_getElem (n : Nat) (start step : Int) (k : Nat) (hk : k < (indexAxis n start step).length) :
+    (indexAxis n start step)[k] = start + (k : Int) * step := by
+  simp [indexAxis]
+
+/-- neighbouring coordinates differ by exactly the step -/
+theorem indexAxis_step (n : Nat) (start step : Int) (k : Nat) (hk : k + 1 < (indexAxis n start step).length) :
+    (indexAxis n start step)[k + 1] - (indexAxis n start step)[k]'(by omega) = step := by
+  simp only [indexAxis_getElem]
+  push_cast
+  ring
+
+/-- with a non-zero step no coordinate occurs twice -/
+theorem indexAxis_injective (n : Nat) (start step : Int) (hs : step ≠ 0) (i j : Nat)
+    (hi : i < (indexAxis n start step).length) (hj : j < (indexAxis n start step).length)
+    (h : (indexAxis n start step)[i] = (indexAxis n start step)[j]) : i = j := by
+  simp only [indexAxis_getElem] at h
+  have h' : (i : Int) * step = (j : Int) * step := by omega
+  have := mul_right_cancel₀ hs h'
+  exact_mod_cast this
+
+/-- in exact arithmetic `arange(start, start + n·step, step)` has exactly n points: an importer that writes the axis that way
+    differs from the index form only through rounding of `n·step` (L0) — which is why the correspondence check imports files
+    with decimal dwell times -/
+theorem arange_exact (n : Nat) (start step : Int) (hs : 0 < step) :
+    arangeLen start (start + (n : Int) * step) step = n := by
+  unfold arangeLen
+  have h1 : ¬ step ≤ 0 := by omega
+  simp only [h1, if_false]
+  have h2 : start + (n : Int) * step - start + step - 1 = (step - 1) + step * (n : Int) := by ring
+  rw [h2, Int.add_mul_ediv_left _ _ (by omega : step ≠ 0)]
+  have h3 : (step - 1) / step = 0 := Int.ediv_eq_zero_of_lt (by omega) (by omega)
+  rw [h3]; simp
+
+/-- … and one rounding step too far gives one point too many -/
+theorem arange_overshoot (n : Nat) (start step eps : Int) (hs : 0 < step) (he : 0 < eps) (he' : eps ≤ step) :
+    arangeLen start (start + (n : Int) * step + eps) step = n + 1 := by
+  unfold arangeLen
+  have h1 : ¬ step ≤ 0 := by omega
+  simp only [h1, if_false]
+  have h2 : start + (n : Int) * step + eps - start + step - 1 = (eps - 1) + step * ((n : Int) + 1) := by ring
+  rw [h2, Int.add_mul_ediv_left _ _ (by omega : step ≠ 0)]
+  have h3 : (eps - 1) / step = 0 := Int.ediv_eq_zero_of_lt (by omega) (by omega)
+  rw [h3]; simp
+
+example : indexAxis 4 0 3 = [0, 3, 6, 9] ∧ arangeLen 0 12 3 = 4 ∧ arangeLen 0 13 3 = 5 := by decide
+
+end axes
 
 
 /-- non-vacuity and a concrete check of the index convention: a (2 rows × 3 points) file with a 1-byte
